@@ -86,8 +86,22 @@ class EventExplore(Explore):
         return label.split(":")[0]
 
 
+class GetterBursts(EventExplore):
+    """pipelined reads: several get_*() calls (up to three get_message()) outstanding when the wormhole closes - free steps restricted to
+    get_*()/close so that a deeper schedule stays affordable"""
+    configs = {"alloc-set-deferred-getters": CONFIGS["alloc-set-deferred-getters"]}
+    allowed = {"get", "close"}
+
+    def __init__(self, cfg, plo, phi, k):
+        EventExplore.__init__(self, cfg, plo, phi, k)
+        self.name = "getter_bursts_%s_p%d-%d_k%d" % (cfg, plo, phi, k)
+
+    def free_actions(self, sim):
+        return [a for a in sim.enabled() if a[0] == "close" or (a[0] == "get" and a[2] == "get_message")]
+
+
 def jobs(tier):
-    return make_jobs(EventExplore, tier, 2, 3) + make_random_jobs(EventExplore, tier)
+    return make_jobs(EventExplore, tier, 2, 3) + make_random_jobs(EventExplore, tier) + make_jobs(GetterBursts, tier, 3, 4, stepq=8, stept=6)
 
 
 ASSUMPTIONS = [
